@@ -17,7 +17,12 @@
 //	       false, the way flag.ndjson says the era carries the flag (third
 //	       element of the envelope false; Dijkstra: the flag the block decoder
 //	       sets for a member of invalid_transactions); their keys end in
-//	       ":p2invalid".
+//	       ":p2invalid".  Rows with an explicit encoding shape (rform/renc for the
+//	       redeemers, denc for the datums) are built with exactly that shape on
+//	       the wire - non-minimal heads, indefinite containers, map keys out of
+//	       order, a redeemer map with a repeated key - and the hash the row
+//	       names is computed over those original bytes or over the canonical
+//	       re-encoding of what they decode to; keys carry ":renc=" / ":denc=".
 package main
 
 import (
@@ -72,6 +77,9 @@ type ruleRow struct {
 	Reason      string   `json:"reason"`
 	P2          bool     `json:"p2"`      // the transaction is flagged is_valid = false
 	Binding     string   `json:"binding"` // both | rejectOnly (a flagged transaction without redeemers: see Admissible in the spec)
+	RForm       string   `json:"rform"`   // any | list | map
+	REnc        string   `json:"renc"`    // any | canon | wide | indef | unordered | dupKey
+	DEnc        string   `json:"denc"`    // any | canon | wide | indef
 }
 
 type flagRow struct {
@@ -530,7 +538,42 @@ func redeemers(form string) (orig, canon []byte) {
 		}
 		return e.b
 	}
+	// two entries { [0,k1]: [v1, ex], [0,k2]: [v2, ex] }, minimal heads
+	mp2 := func(k1, v1, k2, v2 uint64) []byte {
+		e := &enc{}
+		e.mapn(2)
+		for _, kv := range [][2]uint64{{k1, v1}, {k2, v2}} {
+			e.array(2)
+			e.uint(0)
+			e.uint(kv[0])
+			e.array(2)
+			e.uint(kv[1])
+			e.array(2)
+			e.uint(1000)
+			e.uint(1_000_000)
+		}
+		return e.b
+	}
+	mp1 := func(k, v uint64) []byte {
+		e := &enc{}
+		e.mapn(1)
+		e.array(2)
+		e.uint(0)
+		e.uint(k)
+		e.array(2)
+		e.uint(v)
+		e.array(2)
+		e.uint(1000)
+		e.uint(1_000_000)
+		return e.b
+	}
 	switch form {
+	case "map-unordered":
+		// keys (spend, 1) before (spend, 0); canonically (spend, 0) comes first
+		return mp2(1, 42, 0, 43), mp2(0, 43, 1, 42)
+	case "map-dupKey":
+		// the key (spend, 0) twice; decoded last-wins, the re-encoding has the last entry only
+		return mp2(0, 42, 0, 43), mp1(0, 43)
 	case "list":
 		return list(false, false), list(false, false)
 	case "list-indef":
@@ -748,6 +791,12 @@ func rulesMode(rep *vh.Reporter, rng *rand.Rand, eraName, viewsPath, rulesPath, 
 	}
 	rk := func(r *ruleRow) string {
 		k := fmt.Sprintf("L=%s:shape=%s:red=%d:dat=%s:decl=%s", lkey(r.L), r.Shape, b2i(r.Red), r.Datf, r.Decl)
+		if explicit(r.RForm) {
+			k += ":renc=" + r.RForm + "-" + r.REnc
+		}
+		if explicit(r.DEnc) {
+			k += ":denc=" + r.DEnc
+		}
 		if r.P2 {
 			k += ":p2invalid"
 		}
@@ -756,6 +805,10 @@ func rulesMode(rep *vh.Reporter, rng *rand.Rand, eraName, viewsPath, rulesPath, 
 	// the unflagged table first, in its old order (the same transactions as before
 	// the flag became a dimension), then the flagged rows
 	sort.SliceStable(rows, func(i, j int) bool {
+		// then the rows with an explicit encoding shape
+		if shaped(&rows[i]) != shaped(&rows[j]) {
+			return !shaped(&rows[i])
+		}
 		if rows[i].P2 != rows[j].P2 {
 			return !rows[i].P2
 		}
@@ -800,6 +853,8 @@ func rulesMode(rep *vh.Reporter, rng *rand.Rand, eraName, viewsPath, rulesPath, 
 	sampled := map[string]bool{}
 	ran := 0
 	flaggedRan, flaggedReject, rejectOnlyOver := 0, 0, 0
+	shapedRan := map[string]int{}
+	undecodable := map[string]int{}
 	for ri := range rows {
 		r := &rows[ri]
 		in := false
@@ -840,6 +895,34 @@ func rulesMode(rep *vh.Reporter, rng *rand.Rand, eraName, viewsPath, rulesPath, 
 		} else {
 			s.datForm = []string{"indef", "wide", "plain"}[rng.Intn(3)]
 		}
+		// an explicit shape of the row replaces the driver's choice
+		if explicit(r.RForm) {
+			if !r.Red || !explicit(r.REnc) {
+				rep.Dead("row %s: redeemer shape %s-%s on a row with red = %v", rk(r), r.RForm, r.REnc, r.Red)
+			}
+			s.redForm = r.RForm + "-" + r.REnc
+			if r.REnc == "canon" {
+				s.redForm = r.RForm
+			}
+			legal := false
+			for _, f := range era.redForms {
+				if f == r.RForm { // the era has the form (list / map) at all
+					legal = true
+				}
+			}
+			if !legal {
+				rep.Dead("row %s: the specification lists %s for the redeemer form %q", rk(r), era.name, r.RForm)
+			}
+		}
+		if explicit(r.DEnc) {
+			if !r.Dat {
+				rep.Dead("row %s: datum encoding %s on a row without datums", rk(r), r.DEnc)
+			}
+			s.datForm = map[string]string{"canon": "plain", "wide": "wide", "indef": "indef"}[r.DEnc]
+			if s.datForm == "" {
+				rep.Dead("row %s: unknown datum encoding %q", rk(r), r.DEnc)
+			}
+		}
 		s.tagged = era.setTags && rng.Intn(2) == 0
 
 		redOrig, redCanon := redeemers(s.redForm)
@@ -864,11 +947,18 @@ func rulesMode(rep *vh.Reporter, rng *rand.Rand, eraName, viewsPath, rulesPath, 
 		if (r.Datf == "list" || r.Datf == "set") != r.Dat {
 			rep.Dead("row %s: datf %q but dat = %v", rk(r), r.Datf, r.Dat)
 		}
-		if r.Decl == "reencRed" && r.Red && bytes.Equal(redOrig, redCanon) {
-			rep.Dead("redeemer form %s is canonical", s.redForm)
+		// the row's term names a re-encoding exactly when re-encoding changes the bytes
+		if r.Red && r.DeclRed == "reenc" && bytes.Equal(redOrig, redCanon) {
+			rep.Dead("row %s: the declared term re-encodes the redeemers, but the form %s is canonical", rk(r), s.redForm)
 		}
-		if r.Decl == "reencDat" && r.Dat && bytes.Equal(datOrig, datCanon) {
-			rep.Dead("datum form %s is canonical", s.datForm)
+		if r.Dat && r.DeclDat == "reenc" && bytes.Equal(datOrig, datCanon) {
+			rep.Dead("row %s: the declared term re-encodes the datums, but the form %s is canonical", rk(r), s.datForm)
+		}
+		if explicit(r.REnc) && (r.REnc == "canon") != bytes.Equal(redOrig, redCanon) {
+			rep.Dead("row %s: redeemer encoding %s, original = re-encoded is %v", rk(r), r.REnc, bytes.Equal(redOrig, redCanon))
+		}
+		if explicit(r.DEnc) && (r.DEnc == "canon") != bytes.Equal(datOrig, datCanon) {
+			rep.Dead("row %s: datum encoding %s, original = re-encoded is %v", rk(r), r.DEnc, bytes.Equal(datOrig, datCanon))
 		}
 		part := func(kind string, orig, canon, empty []byte) []byte {
 			switch kind {
@@ -932,6 +1022,11 @@ func rulesMode(rep *vh.Reporter, rng *rand.Rand, eraName, viewsPath, rulesPath, 
 		}
 		raw := envelope(era, buildTx(s), three, !(r.P2 && carrier == "envelope"))
 		tx, err := era.decodeTx(raw)
+		if err != nil && r.REnc == "dupKey" {
+			// whether a redeemer map with a repeated key decodes at all is not a statement of C31
+			undecodable[r.RForm+"-"+r.REnc]++
+			continue
+		}
 		if err != nil {
 			rep.Dead("%s: cannot decode the transaction built for %s: %v (%x)", era.name, key, err, raw)
 		}
@@ -948,6 +1043,16 @@ func rulesMode(rep *vh.Reporter, rng *rand.Rand, eraName, viewsPath, rulesPath, 
 			for range w.Redeemers().Iter() {
 				nRed++
 			}
+		}
+		wantRed := map[string]int{"unordered": 2}[r.REnc] // dupKey: one (last wins); every other shape: one
+		if r.Red && wantRed == 0 {
+			wantRed = 1
+		}
+		if nRed != wantRed {
+			rep.Dead("%s %s: %d redeemers decoded from the form %s, expected %d (%x)", era.name, key, nRed, s.redForm, wantRed, raw)
+		}
+		if r.Red && !bytes.Contains(raw, append([]byte{0x05}, redOrig...)) {
+			rep.Dead("%s %s: the redeemer bytes are not in the built transaction", era.name, key)
 		}
 		if s.datField != nil && !bytes.Contains(raw, append([]byte{0x04}, s.datField...)) {
 			rep.Dead("%s %s: the datum field is not in the built transaction", era.name, key)
@@ -1010,6 +1115,15 @@ func rulesMode(rep *vh.Reporter, rng *rand.Rand, eraName, viewsPath, rulesPath, 
 			continue
 		}
 		rsn := r.Reason
+		if shaped(r) {
+			sk := ""
+			if explicit(r.RForm) {
+				sk = "redeemers " + r.RForm + "-" + r.REnc
+			} else {
+				sk = "datums " + r.Datf + "-" + r.DEnc
+			}
+			shapedRan[sk]++
+		}
 		if r.P2 {
 			rsn = "p2invalid " + rsn
 			flaggedRan++
@@ -1043,6 +1157,9 @@ func rulesMode(rep *vh.Reporter, rng *rand.Rand, eraName, viewsPath, rulesPath, 
 		if r.P2 {
 			sk, budget = "p2invalid", 4 // one flagged sample on top of the three unflagged ones
 		}
+		if r.REnc == "dupKey" && !r.P2 {
+			sk, budget = "dupKey:"+r.Decl, 6 // the right hash and the re-encoding's hash over a map with a repeated key
+		}
 		if !sampled[sk] && len(sampled) < budget && len(r.L) >= 1 && (r.Decl == "right" || r.Decl == "byNumber" || r.Decl == "reencRed") && r.Red {
 			sampled[sk] = true
 			rep.Sample(map[string]any{"case": key, "spec": verdict(r.Accept) + " (" + r.Reason + ")", "code_func": fmt.Sprint(fnErr),
@@ -1054,9 +1171,18 @@ func rulesMode(rep *vh.Reporter, rng *rand.Rand, eraName, viewsPath, rulesPath, 
 	}
 	rep.Extra["rule_rows_by_spec_reason_and_code_error "+era.name] = reasons
 	rep.Extra["script_data_hash_rule_listed "+era.name] = listed
+	rep.Extra["rows_with_explicit_encoding_shape "+era.name] = shapedRan
+	if len(undecodable) > 0 {
+		rep.Extra["not_judged: transactions the decoder refuses "+era.name] = undecodable
+	}
 	rep.Extra["flagged_rows "+era.name] = map[string]any{"carrier": carrier, "executed": flaggedRan, "specification_rejects": flaggedReject,
 		"not_judged: rule rejects a flagged transaction without redeemers that the table accepts": rejectOnlyOver}
 }
+
+// explicit: the field of a row fixes the encoding ("any" / absent: the driver chooses)
+func explicit(f string) bool { return f != "" && f != "any" }
+
+func shaped(r *ruleRow) bool { return explicit(r.RForm) || explicit(r.DEnc) }
 
 func verdict(a bool) string {
 	if a {
